@@ -10,7 +10,8 @@ Require Import String.
 Require Import Arith Lia List Bool ZArith QArith Qcanon.
 From TK Require Import Mat_Sums Mat_Core Mat_Qc Mat_EigSelect EigSelect Mat_EigSelect_Tie
                        Mds_Model Mds_Spec Mds_Exec Mds_Proof Mds_Proof_Solver Mds_Proof_Qc
-                       Mds_Proof_Isomap Dijkstra_Spec Spectral_KyFan Mds_Proof_Optimal Mds_Proof_Rank.
+                       Mds_Proof_Isomap Dijkstra_Spec Spectral_KyFan Mds_Proof_Optimal Mds_Proof_Rank
+                       Spectral_Randomized Mds_Spec_Wtol Mds_Proof_Randomized Mds_Exec_Wave2 Mds_Proof_OptimalClamped.
 Import ListNotations.
 Local Open Scope nat_scope.
 
@@ -689,3 +690,208 @@ Example Mds_kpca_linear_nonvacuous :
   (forall i j, i < 4 -> j < 4 -> i <= j -> exr_kern i j = dot 1 (mrow exr_X i) (mrow exr_X j)) /\
   full_contract 4 (kpca_matrix 4 exr_kern) exr_V exr_Lam.
 Proof. exact exr_kpca_ok. Qed.
+
+(* ====================================================================== *)
+(*  Wave 2                                                                 *)
+(* ====================================================================== *)
+
+(* 23. the factor specification with a tolerance PER ENTRY (per-column relative: a retained eigenvalue 10
+       decades below the top one is still checked): the extracted procedure decides it; with tolerances all
+       <= tol it implies the uniform specification, with tolerances 0 it is factor_spec itself. *)
+Theorem Mds_factor_spec_wtol_decision :
+  forall n d (T1 : list (list Qc)) (T2 : list Qc) (B Y : list (list Qc)) (lam : list Qc),
+    c05_factor_w n d T1 T2 B Y lam = Some true ->
+    factor_spec_wtol n d (mof T1) (vof T2) (mof B) (mof Y) (vof lam).
+Proof. exact factor_spec_wtol_b_ok. Qed.
+Print Assumptions Mds_factor_spec_wtol_decision.
+
+Theorem Mds_factor_spec_wtol_uniform :
+  forall n d tol (T1 : mat Qc) (T2 : vec Qc) (B Y : mat Qc) (lam : vec Qc),
+    (forall a b, a < d -> b < d -> (T1 a b <= tol)%Qc) ->
+    (forall c, c < d -> (T2 c <= tol)%Qc) ->
+    factor_spec_wtol n d T1 T2 B Y lam ->
+    factor_spec_tol n d tol B Y lam.
+Proof. exact factor_spec_wtol_uniform. Qed.
+Print Assumptions Mds_factor_spec_wtol_uniform.
+
+Theorem Mds_factor_spec_wtol_exact :
+  forall n d (B Y : mat Qc) (lam : vec Qc),
+    factor_spec_wtol n d (fun _ _ => Q2Qc 0) (fun _ => Q2Qc 0) B Y lam ->
+    factor_spec n d B Y lam.
+Proof. exact factor_spec_wtol_exact. Qed.
+Print Assumptions Mds_factor_spec_wtol_exact.
+
+Example Mds_factor_spec_wtol_nonvacuous :
+  c05_factor_w 2 1 [[Q2Qc 0]] [Q2Qc 0] [[qz 1; qz (-1)]; [qz (-1); qz 1]] [[qz 1]; [qz (-1)]] [qz 2] = Some true /\
+  c05_factor_w 2 1 [[qfrac 1 2]] [qfrac 1 2] [[qz 1; qz (-1)]; [qz (-1); qz 1]] [[qz 0]; [qz 0]] [qz 2] = Some false.
+Proof. split; vm_compute; reflexivity. Qed.
+
+(* 24. THE RANDOMIZED FRONT-END, STEP BY STEP (eigendecomposition_impl_randomized; the loop is c06's executable
+       model Spectral_Randomized.gram_schmidt_thr, reused).
+       (a) loop invariant: every column the Gram-Schmidt loop produces stays in the column space of Z when the
+           starting columns do;
+       (b) k orthonormal vectors inside the column space of an n x r matrix Z with r <= k capture the range of
+           B = Z Z^T :  Y (Y^T B) = B   (dimension argument from Mds_underdetermined; any field with decidable =);
+       (c) the whole front-end on a symmetric B = Z Z^T of rank <= k: ANY test matrix O, norm-oracle answers s with
+           s_i^2 = the squared norm the loop asked for, none zero, none under the cut-off (the `norm < 1e-4` branch
+           is not taken: otherwise known finding F36), Bs ANY solution of the normal equations of the QR solve,
+           (W, Theta) ANY orthonormal eigen-answer for Bs  ==>  (Y W, Theta) meets the dense solver's contract for B
+           and B = (Y W) Theta (Y W)^T. *)
+Theorem Mds_gram_schmidt_in_span :
+  forall (F : Type) (Fo : FieldOps F) (Ff : IsField F) (n r : nat) (Z Y0 : mat F) (K : nat) (s : nat -> F) (i : nat),
+    i <= K ->
+    (forall c, c < K -> in_span n r Z (fun t => Y0 t c)) ->
+    forall c, c < K -> in_span n r Z (fun t => gram_schmidt n Y0 i s t c).
+Proof. exact @gram_schmidt_in_span. Qed.
+Print Assumptions Mds_gram_schmidt_in_span.
+
+Theorem Mds_range_captured :
+  forall (F : Type) (Fo : FieldOps F) (Ff : IsField F) (eq_dec : forall x y : F, {x = y} + {x <> y})
+         (n r k : nat) (Z B Y : mat F),
+    r <= k ->
+    (forall i i', i < n -> i' < n -> B i i' = sumn r (fun j => (Z i j * Z i' j)%F)) ->
+    (forall c, c < k -> in_span n r Z (fun t => Y t c)) ->
+    orthonormal_cols n k Y ->
+    meq n n (mmul k Y (mmul n (mtrans Y) B)) B.
+Proof. exact @range_captured. Qed.
+Print Assumptions Mds_range_captured.
+
+Theorem Mds_randomized_path :
+  forall (F : Type) (Fo : FieldOps F) (Ff : IsField F) (eq_dec : forall x y : F, {x = y} + {x <> y})
+         (below : F -> bool) (n r k : nat) (Z B O Bs W : mat F) (s : nat -> F) (theta : vec F),
+    r <= k ->
+    msym n B ->
+    (forall i i', i < n -> i' < n -> B i i' = sumn r (fun j => (Z i j * Z i' j)%F)) ->
+    (forall i, i < k -> below (s i) = false) ->
+    (forall i, i < k ->
+       s i <> 0%F /\
+       (s i * s i)%F = (let Yi := gram_schmidt n (rand_Y0 n B O) i s in
+                        let col := gs_subtract n Yi i i (fun t => Yi t i) in dot n col col)) ->
+    let Y := rand_basis below n k B O s in
+    rand_normal_eq n k Y (rand_B1 n B Y) Bs ->
+    eig_pairs k k Bs W theta ->
+    let P := rand_vectors k Y W in
+    eig_contract n k B P theta /\
+    (forall i j, i < n -> j < n -> B i j = sumn k (fun c => (P i c * theta c * P j c)%F)).
+Proof. exact @mds_randomized_path. Qed.
+Print Assumptions Mds_randomized_path.
+
+(* 25. the consequence clause for the RANDOMIZED solver (Qc): N points with r <= d coordinates, MDS with
+       eigen_method = Randomized (k = d), everything as in 24, sqrt answers for max(theta,0)
+       ==> every pairwise distance is reproduced. *)
+Theorem Mds_randomized_recovers_euclidean :
+  forall (below : Qc -> bool) (N r d : nat) (X dist O Bs W : mat Qc) (s : nat -> Qc) (theta sq : vec Qc),
+    N <> 0 -> r <= d ->
+    (forall i j, i < N -> j < N -> i <= j -> (dist i j * dist i j)%Qc = sqdist r X i j) ->
+    let B := mds_matrix N dist in
+    (forall i, i < d -> below (s i) = false) ->
+    (forall i, i < d ->
+       s i <> Q2Qc 0 /\
+       (s i * s i)%Qc = (let Yi := gram_schmidt N (rand_Y0 N B O) i s in
+                        let col := gs_subtract N Yi i i (fun t => Yi t i) in dot N col col)) ->
+    let Y := rand_basis below N d B O s in
+    rand_normal_eq N d Y (rand_B1 N B Y) Bs ->
+    eig_pairs d d Bs W theta ->
+    (forall c, c < d -> (sq c * sq c)%Qc = qmax0 (theta c)) ->
+    let E := scale_cols (rand_vectors d Y W) sq in
+    forall i j, i < N -> j < N -> sqdist d E i j = sqdist r X i j.
+Proof. exact mds_randomized_recovers_euclidean_Qc. Qed.
+Print Assumptions Mds_randomized_recovers_euclidean.
+
+(* four points +1,-1,+1,-1 on a line, test matrix e_1: every hypothesis of 24 / 25 holds and the model's
+   embedding is (1,-1,1,-1) *)
+Example Mds_randomized_path_nonvacuous :
+  let B := mds_matrix 4 exr_dist in
+  (forall i, i < 1 -> exq_below (exq_s i) = false) /\
+  (forall i, i < 1 ->
+     exq_s i <> Q2Qc 0 /\
+     (exq_s i * exq_s i)%Qc = (let Yi := gram_schmidt 4 (rand_Y0 4 B exq_O) i exq_s in
+                              let col := gs_subtract 4 Yi i i (fun t => Yi t i) in dot 4 col col)) /\
+  (let Y := rand_basis exq_below 4 1 B exq_O exq_s in
+   rand_normal_eq 4 1 Y (rand_B1 4 B Y) exq_Bs) /\
+  eig_pairs 1 1 exq_Bs exq_W exq_theta /\
+  (forall c, c < 1 -> (exq_sq c * exq_sq c)%Qc = qmax0 (exq_theta c)) /\
+  mtab 4 1 (scale_cols (rand_vectors 1 (rand_basis exq_below 4 1 B exq_O exq_s) exq_W) exq_sq)
+    = [[qz 1]; [qz (-1)]; [qz 1]; [qz (-1)]].
+Proof. exact exq_ok. Qed.
+
+(* 25b. REFUTED for the randomized front-end: scale equivariance (theorem 8 is about the dense path).  The cut-off
+        of the Gram-Schmidt loop is ABSOLUTE (norm < 1e-4): on the same four points scaled by 2^-20 the model's
+        branch fires and the basis is the zero column, at scale 1 it is (1,-1,1,-1)/2.  Known finding F36 (scale
+        variant): the C++ then throws eigendecomposition_error / returns NaN. *)
+Theorem Mds_randomized_scale_equivariance_refuted :
+  let B := mds_matrix 4 exr_dist in
+  mtab 4 1 (rand_basis exq_below 4 1 B exq_O exq_s)
+    = [[qfrac 1 2]; [qfrac (-1) 2]; [qfrac 1 2]; [qfrac (-1) 2]] /\
+  exq_below (exq_c2 * qz 2)%Qc = true /\
+  ((exq_c2 * qz 2) * (exq_c2 * qz 2))%Qc =
+     (let Y0 := rand_Y0 4 (mscale exq_c2 B) exq_O in dot 4 (fun t => Y0 t 0) (fun t => Y0 t 0)) /\
+  mtab 4 1 (rand_basis exq_below 4 1 (mscale exq_c2 B) exq_O (fun _ => (exq_c2 * qz 2)%Qc))
+    = [[Q2Qc 0]; [Q2Qc 0]; [Q2Qc 0]; [Q2Qc 0]].
+Proof. exact exq_scale_refuted. Qed.
+Print Assumptions Mds_randomized_scale_equivariance_refuted.
+
+(* 26. OPTIMALITY WITH EIGENVALUES OF ANY SIGN (non-Euclidean dissimilarities; round 2 had B >= 0 only).
+       lam = lp - lm, lp = max(lam,0), lm = max(-lam,0); the methods scale by sqrt(max(lam,0)).  For EVERY
+       competitor Q C Q^T (Q any orthonormal d-frame, C any d x d) that is positive semi-definite as a
+       quadratic form:  |B - Q C Q^T|_F^2 >= sum_{t<n-d} lp_t^2 + sum_t lm_t^2 = |B - Y Y^T|_F^2.
+       Every ordered field; closed at Qc with lp = qmax0 lam. *)
+Theorem Mds_eckart_young_clamped :
+  forall (F : Type) (Fo : FieldOps F) (Ff : IsField F) (Fle : OrderedField F)
+         (n d : nat) (B V Q C : mat F) (lam lp lm : vec F),
+    d <= n ->
+    meq n n (mmul n (mtrans V) V) mI ->
+    meq n n (mmul n V (mtrans V)) mI ->
+    meq n n (mmul n B V) (mmul n V (mdiag lam)) ->
+    (forall t, t < n -> lam t = (lp t - lm t)%F) ->
+    (forall t, t < n -> fle 0%F (lp t)) ->
+    (forall t, t < n -> fle 0%F (lm t)) ->
+    (forall t, t < n -> (lp t * lm t)%F = 0%F) ->
+    Spectral_KyFan.ascending n lp ->
+    meq d d (mmul n (mtrans Q) Q) mI ->
+    (forall x : vec F, fle 0%F (qf n (lowrank d Q C) x)) ->
+    fle (sumn (n - d) (sq lp) + sumn n (sq lm))%F (fro2 n n (msub B (lowrank d Q C))).
+Proof. exact @eckart_young_clamped. Qed.
+Print Assumptions Mds_eckart_young_clamped.
+
+Theorem Mds_attains_bound_clamped :
+  forall (F : Type) (Fo : FieldOps F) (Ff : IsField F)
+         (n d : nat) (B V : mat F) (lam lp lm s : vec F),
+    d <= n ->
+    meq n n (mmul n (mtrans V) V) mI ->
+    meq n n (mmul n V (mtrans V)) mI ->
+    meq n n (mmul n B V) (mmul n V (mdiag lam)) ->
+    (forall t, t < n -> lam t = (lp t - lm t)%F) ->
+    (forall t, t < n -> (lp t * lm t)%F = 0%F) ->
+    (forall c, c < d -> (s c * s c)%F = lp (n - d + c)%nat) ->
+    let Y := scale_cols (select_cols n V (n - d, d)) s in
+    fro2 n n (msub B (mmul d Y (mtrans Y))) = (sumn (n - d) (sq lp) + sumn n (sq lm))%F.
+Proof. exact @mds_attains_bound_clamped. Qed.
+Print Assumptions Mds_attains_bound_clamped.
+
+Theorem Mds_factor_optimal_clamped :
+  forall (n d : nat) (B V Q C : mat Qc) (lam s : vec Qc),
+    d <= n ->
+    meq n n (mmul n (mtrans V) V) mI ->
+    meq n n (mmul n V (mtrans V)) mI ->
+    meq n n (mmul n B V) (mmul n V (mdiag lam)) ->
+    Spectral_KyFan.ascending n lam ->
+    (forall c, c < d -> (s c * s c)%Qc = qmax0 (lam (n - d + c)%nat)) ->
+    meq d d (mmul n (mtrans Q) Q) mI ->
+    (forall x : vec Qc, (0 <= qf n (lowrank d Q C) x)%Qc) ->
+    let Y := scale_cols (select_cols n V (n - d, d)) s in
+    (fro2 n n (msub B (mmul d Y (mtrans Y))) <= fro2 n n (msub B (lowrank d Q C)))%Qc.
+Proof. exact mds_factor_optimal_clamped_Qc. Qed.
+Print Assumptions Mds_factor_optimal_clamped.
+
+(* B = diag(-1, 4), d = 1: the retained eigenvalue is 4, the discarded one NEGATIVE; competitor e_1 e_1^T *)
+Example Mds_factor_optimal_clamped_nonvacuous :
+  1 <= 2 /\
+  meq 2 2 (mmul 2 (mtrans exc_V) exc_V) mI /\
+  meq 2 2 (mmul 2 exc_V (mtrans exc_V)) mI /\
+  meq 2 2 (mmul 2 exc_B exc_V) (mmul 2 exc_V (mdiag exc_lam)) /\
+  Spectral_KyFan.ascending 2 exc_lam /\
+  (forall c, c < 1 -> (exc_s c * exc_s c)%Qc = qmax0 (exc_lam (2 - 1 + c)%nat)) /\
+  meq 1 1 (mmul 2 (mtrans exc_Q) exc_Q) mI /\
+  (forall x : vec Qc, (0 <= qf 2 (lowrank 1 exc_Q exc_C) x)%Qc).
+Proof. exact exc_ok. Qed.
